@@ -47,6 +47,8 @@ SPELLINGS = [['disk.used;dc=ams;host=web1', 'disk.used;host=web1;dc=ams', 'disk.
 def gen_history(r, mx, tagged=False):
   nm = r.randint(1, 4)
   metrics = ['m%d' % i for i in range(nm)]
+  if r.random() < 0.1:
+    metrics[r.randrange(nm)] = ''
   if tagged:
     ops = []
     fams = r.sample(SPELLINGS, r.randint(1, 3))
